@@ -1,5 +1,5 @@
 """Per-property configuration of bin/check: correspondences (generator profile, case counts,
-comparison mask e p m r v c w), non-triviality rule, extra trusted base."""
+comparison mask e p m r v c w o), non-triviality rule, extra trusted base."""
 
 def parse_run(profile, mask, nq, nt, extra=None):
     return dict(kind="parse", profile=profile, mask=mask, n_quick=nq, n_thorough=nt, extra=extra or [])
@@ -8,73 +8,86 @@ def dispatch_run(profile, mask, dmask, nq, nt, extra=None):
     return dict(kind="dispatch", profile=profile, mask=mask, dmask=dmask, n_quick=nq, n_thorough=nt, extra=extra or [])
 
 def build_run(nq, nt, profile="build"):
-    return dict(kind="build", profile=profile, mask="1111111", n_quick=nq, n_thorough=nt, extra=[])
+    return dict(kind="build", profile=profile, mask="11111110", n_quick=nq, n_thorough=nt, extra=[])
 
 def tok_run(nq_rand, nt_rand, lq=3, lt=5):
-    return dict(kind="tok", profile="tok", mask="1111111", n_quick=nq_rand, n_thorough=nt_rand, shards=1,
+    return dict(kind="tok", profile="tok", mask="11111110", n_quick=nq_rand, n_thorough=nt_rand, shards=1,
                 extra=["-len", str(lq)], extra_thorough=["-len", str(lt)])
 
 PROPS = {
     "C01": dict(
-        runs=[parse_run("scalar", "1100110", 5000, 200000), tok_run(20000, 300000)],
+        runs=[parse_run("scalar", "11001100", 5000, 200000), tok_run(20000, 300000)],
         rule="scalar option kinds x both spellings x 3 modes x value pools (boundary/malformed numerals, dashes, '=', newlines, bytes); non-trivial = a scalar option exists, an option token is present and some value text is not a plain ASCII word",
     ),
     "C02": dict(
-        runs=[parse_run("multi", "1101100", 5000, 200000), tok_run(5000, 50000)],
+        runs=[parse_run("multi", "11011000", 5000, 200000), tok_run(5000, 50000)],
         rule="slice/map options with 1<=min<=max<=5 and argv of option occurrences with 0..max+1 followers of every token kind; non-trivial = a multi-value option exists and argv has >= 3 tokens",
     ),
     "C03": dict(
-        runs=[parse_run("general", "0001000", 4000, 200000), parse_run("unknown", "0001000", 2000, 100000),
-              parse_run("bundle", "0001000", 3000, 100000)],
+        runs=[parse_run("general", "00010000", 4000, 200000), parse_run("unknown", "00010000", 2000, 100000),
+              parse_run("bundle", "00010000", 3000, 100000)],
         rule="generated (definition, argv) pairs; non-trivial = argv has >= 3 token kinds and remaining is not empty; distinct by (definition, argv) hash",
         assumptions=["the labels of Proofs/Labels.v describe the parser's own decisions; their meaning is pinned by the C03_label_* theorems"],
     ),
     "C04": dict(
-        runs=[parse_run("term", "0001110", 4000, 200000)],
+        runs=[parse_run("term", "00011100", 4000, 200000)],
         rule="argv with `--` planted after every context kind; non-trivial = `--` present and neither first nor last",
     ),
     "C05": dict(
-        runs=[parse_run("abbrev", "1100110", 4000, 200000)],
+        runs=[parse_run("abbrev", "11001100", 4000, 200000)],
         rule="every prefix of every key of colliding name sets; non-trivial = name set has two keys sharing a prefix and argv has an option token",
     ),
     "C06": dict(
-        runs=[parse_run("alias", "0000110", 5000, 200000), parse_run("general", "0000110", 2000, 100000)],
+        runs=[parse_run("alias", "00001100", 5000, 200000), parse_run("general", "00001100", 2000, 100000)],
         rule="definitions where 90% of the options have 1-3 aliases, argv choosing a key per occurrence; non-trivial = some option has an alias and argv has >= 2 option tokens; plus the access-path oracle (pointer, *Var target, Value/Called/CalledAs through every key) on every case",
         assumptions=["pointer / *Var / Value(x) agreement is by construction in the model (one store entry per option); on the real library it is established by the access-path oracle of the harness"],
     ),
     "C07": dict(
-        runs=[parse_run("modes", "1101110", 4000, 200000), parse_run("bundle", "1101110", 3000, 100000), tok_run(30000, 500000)],
+        runs=[parse_run("modes", "11011100", 4000, 200000), parse_run("bundle", "11011100", 3000, 100000), tok_run(30000, 500000)],
         rule="all three modes with single-dash tokens of any shape (multi-byte letters, attached values, bundles with flags/valued/unknown letters); non-trivial = a single-dash token of length >= 3 or with attached value",
     ),
     "C08": dict(
-        runs=[parse_run("unknown", "1101001", 5000, 200000), parse_run("bundle", "1101001", 2000, 100000)],
+        runs=[parse_run("unknown", "11010010", 5000, 200000), parse_run("bundle", "11010010", 2000, 100000)],
         rule="unknown long/short/bundled options with and without attached values planted before/after command tokens and in wrapper commands, 3 unknown modes x 3 single-dash modes; non-trivial = an unknown option was reported, warned about or passed through",
     ),
     "C10": dict(
-        runs=[dispatch_run("dispatch", "1001110", "111000", 4000, 200000), build_run(3000, 100000)],
+        runs=[dispatch_run("dispatch", "10011100", "111000", 4000, 200000), build_run(3000, 100000)],
         coq_sample=8,
         rule="command trees of depth <= 3 with inherited options, UnsetOptions wrappers and commands without function; Parse then Dispatch with instrumented functions; non-trivial = the tree has commands and exactly one function ran",
         assumptions=["'exactly one function exactly once' is by the result type in the model; on the real library the harness counts invocations and checks the context value"],
     ),
     "C11": dict(
-        runs=[dispatch_run("dispatch", "1100000", "100110", 4000, 200000), build_run(3000, 100000)],
+        runs=[dispatch_run("dispatch", "11000000", "100110", 4000, 200000), build_run(3000, 100000)],
         coq_sample=8,
         rule="trees with required options (own/inherited, with/without custom message) and help option/command at every level; non-trivial = a required option was missing or help was requested",
     ),
     "C18": dict(
-        runs=[dispatch_run("help", "0000000", "000011", 3000, 100000), dispatch_run("dispatch", "0000000", "000011", 2000, 100000)],
+        runs=[dispatch_run("help", "00000000", "000011", 3000, 100000), dispatch_run("dispatch", "00000000", "000011", 2000, 100000)],
         coq_sample=8,
         rule="levels with up to 8 options over all 12 kinds, 0-3 aliases, required / env / multi-line descriptions / argument declarations / commands; the exact bytes of Help() and of the help written by Dispatch are compared with the model's rendering; non-trivial = Parse succeeded and the tree has >= 4 option objects",
         trusted_extra=["DefaultStr of numeric defaults (fmt %d %f %t) and HelpArgName are taken from the dump, not recomputed"],
     ),
     "C12": dict(
-        runs=[build_run(4000, 150000, "env"), parse_run("env", "1000110", 4000, 150000)],
+        runs=[build_run(4000, 150000, "env"), parse_run("env", "10001100", 4000, 150000)],
         coq_sample=10,
         rule="bool/string/int/float (plain and optional) options bound to environment variables x variable texts {valid, invalid, empty, unset, mixed case} x option present/absent on the command line; the definition is executed with the process environment set and the resulting option objects are compared with the model's builder, then Parse is compared; non-trivial = an option is bound to a set variable",
         trusted_extra=["the process environment is set by the harness around the definition (os.Setenv), the model gets the same table"],
     ),
+    "C19": dict(
+        runs=[parse_run("soup", "10000000", 3000, 300000), dispatch_run("dispatch", "10000000", "000000", 2000, 100000),
+              build_run(2000, 100000), tok_run(30000, 1000000)],
+        coq_sample=10,
+        rule="byte soup / weird tokens / 20 kB tokens / 3000-token argv on random definitions, each call under recover() and a 10 s deadline; invalid definitions must panic at definition time exactly when the builder model rejects them; non-trivial = a non-ASCII or control byte is present or argv has >= 50 tokens",
+        assumptions=["panics or super-linear behaviour inside Go's regexp/strconv/fmt/sort are outside the model: that part is search (recover + deadline), labelled as such"],
+    ),
+    "C20": dict(
+        runs=[parse_run("perm", "11111111", 3000, 100000, extra=["-repeat", "6"]), dispatch_run("help", "11111111", "111111", 1500, 50000)],
+        coq_sample=10,
+        rule="definitions with several candidates for every diagnostic (missing required options, unknown options, ambiguous prefixes); each case is executed 6 times on fresh definitions (Go randomises map order per range) and all observables incl. error text, warnings and help text must be byte-identical; the model is evaluated on the dumped table order and on every table reversed; non-trivial = the root has >= 2 options",
+        assumptions=["cross-process determinism is covered only through repeated in-process definitions (map iteration is randomised per range statement, not per process)"],
+    ),
     "C09": dict(
-        runs=[parse_run("order", "0001110", 4000, 200000)],
+        runs=[parse_run("order", "00011100", 4000, 200000)],
         rule="trees with SetRequireOrder at some level; non-trivial = require-order set somewhere and argv has >= 2 tokens",
     ),
 }
